@@ -17,6 +17,11 @@ CHECKS = {
             "hiding only the allowed re-associations, with the tree that was built; on the SQLite context the text is also evaluated against a fully "
             "parenthesised transcription over a grid of leaf assignments. The triple table is enumerated completely; deeper trees are sampled.",
             "Trusted: the precedence ladder in pbt/exprparse.py (self-tested against SQLite on every case) and the dialect lexers."),
+    "C01": ("Hypothesis-generated histories (trees of builder calls, data-driven state machine) checked against a linear-history twin after every step",
+            "Histories branch constantly (any live object may be the receiver, repeated calls on non-empty clauses are favoured); after each step every "
+            "live object must render like an object rebuilt from its own chain of calls on fresh objects; all six contexts inline and parameterised at the "
+            "end of each history. Builder-decorated methods are discovered from the live package and uncovered ones are listed in the evidence.",
+            "Trusted: the interpreter pbt/prog.py and the argument menus in pbt/hist.py; sampling, not exhaustive."),
 }
 
 NOT_BUILT = {}
